@@ -248,6 +248,10 @@ func pkgShort(path string) string {
 
 func (e *Engine) sortOf(t types.Type) string {
 	t = types.Unalias(t)
+	if e.isBseqType(t) {
+		e.declareWriterTheory()
+		return "BSeq"
+	}
 	switch u := t.Underlying().(type) {
 	case *types.Basic:
 		switch {
@@ -611,7 +615,7 @@ func (e *Engine) merge(states []*State) *State {
 		pcs = append(pcs, s.pc)
 	}
 	pc := or(pcs...)
-	if len(pc) > 120 {
+	if len(pc) > 120 && e.bound == 0 {
 		b := e.fresh("pc", "Bool")
 		e.assumes = append(e.assumes, eq(b, pc))
 		pc = b
@@ -677,6 +681,15 @@ func (e *Engine) merge(states []*State) *State {
 		}
 		if same {
 			out.vars[k] = vals[0]
+			continue
+		}
+		if e.bound > 0 {
+			// under a binder no fresh constants: nested if-then-else over the (mutually exclusive) path conditions
+			t := vals[len(vals)-1].T
+			for i := len(vals) - 2; i >= 0; i-- {
+				t = ite(live[i].pc, vals[i].T, t)
+			}
+			out.vars[k] = Value{t, vals[0].Typ}
 			continue
 		}
 		n := e.fresh("m_"+x.n, e.sortOf(vals[0].Typ))
